@@ -170,6 +170,12 @@ fn generated() -> Vec<Base> {
             }
         }
         obook.defined_names = vec![("Name1".into(), "$Gen1.$A$1".into())];
+        // a sheet that starts with repeated empty rows
+        let mut lead = MSheet::new("Lead");
+        lead.cells.insert((3, 0), MCell::v(Val::Num(7.0)));
+        lead.cells.insert((3, 2), MCell::v(Val::Str("after leading rows".into())));
+        lead.cells.insert((6, 1), MCell::v(Val::Num(8.0)));
+        obook.sheets.push(lead);
         v.push(Base { name: "generated.ods".into(), fmt: Fmt::Ods, bytes: crate::enc::ods::encode(&obook, &OdsChoices::default(), &mut rng).bytes });
     }
     v
@@ -600,7 +606,7 @@ impl Prop for C06 {
         "fault_enumeration"
     }
     fn rule(&self) -> String {
-        "base corpus = every xls/xlsx/xlsm/xlsb/ods fixture of the repository plus one generated feature-complete workbook per format (VBA project, merges, table, shared formula, names, every cell kind, multi-CONTINUE SST); fault atoms enumerated per base: zip (part dropped / emptied / truncated / randomised, archive truncated, EOCD corrupted), XML (per distinct element/attribute pair: 24 hostile values incl. 0, -1, 2^32, 1e20, A0, ZZZZZZZ1, 1:1, B2:A1, XFE1, XFD1048576, 2 KB, invalid UTF-8, 300 nested brackets, multi-byte punctuation in formula position, invalid entities / character references, 1E400; attribute deleted; text nodes likewise; start tag deleted / duplicated, end tag deleted), BIFF (per record type: deleted, duplicated, payload truncated to every length 0..24 and len-1, length field 0xFFFF, stream cut inside the record, (empty) CONTINUE spliced, SST strings ending 0-2 bytes before a record end followed by CONTINUE records of 0-2 bytes, every 16-bit field of the first 24 bytes to 0/1/0x7FFF/0xFFFF, 32-bit fields to extremes, formula token bytes / cce), compound file (every header field to extremes, looping DIFAT chain x declared DIFAT count, FAT and mini-FAT entries to self-loop / cycle / out of range / FREESECT / ENDOFCHAIN, directory start / size / type / name, truncation at sector boundaries +-1), XLSB (per record type: deleted, duplicated, truncated, length varint extremes, 32-bit fields), MS-OVBA (container signature / chunk header / copy tokens / raw chunk / chunk decompressing past 4096 bytes / truncations; dir-stream record ids, lengths, offsets, counts, code page). Every case is opened with its format's reader (and through auto-detection: every case in thorough, every 4th in quick) and every API of the property's observe_at list is called on up to 5 sheet names and a missing name. Thorough adds 1-3 random byte edits on top of every k-th atom. Non-trivial = every faulted file; distinct by hash of the file.".into()
+        "base corpus = every xls/xlsx/xlsm/xlsb/ods fixture of the repository plus one generated feature-complete workbook per format (VBA project, merges, table, shared formula, names, every cell kind, multi-CONTINUE SST); fault atoms enumerated per base: zip (part dropped / emptied / truncated / randomised, archive truncated, EOCD corrupted), XML (per distinct element/attribute pair, the first element of a run of same-named siblings and a later one counted separately: 26 hostile values incl. 0, -1, 2^32, 1e20, A0, ZZZZZZZ1, 1:1, B2:A1, B1:A3, A3:B1, XFE1, XFD1048576, 2 KB, invalid UTF-8, 300 nested brackets, multi-byte punctuation in formula position, invalid entities / character references, 1E400; attribute deleted; text nodes likewise; start tag deleted / duplicated, end tag deleted), BIFF (per record type: deleted, duplicated, payload truncated to every length 0..24 and len-1, length field 0xFFFF, stream cut inside the record, (empty) CONTINUE spliced, SST strings ending 0-2 bytes before a record end followed by CONTINUE records of 0-2 bytes, every 16-bit field of the first 24 bytes to 0/1/0x7FFF/0xFFFF, 32-bit fields to extremes, formula token bytes / cce), compound file (every header field to extremes, looping DIFAT chain x declared DIFAT count, FAT and mini-FAT entries to self-loop / cycle / out of range / FREESECT / ENDOFCHAIN, directory start / size / type / name, truncation at sector boundaries +-1), XLSB (per record type: deleted, duplicated, truncated, length varint extremes, 32-bit fields), MS-OVBA (container signature / chunk header / copy tokens / raw chunk / chunk decompressing past 4096 bytes / truncations; dir-stream record ids, lengths, offsets, counts, code page). Every case is opened with its format's reader (and through auto-detection: every case in thorough, every 4th in quick) and every API of the property's observe_at list is called on up to 5 sheet names and a missing name. Thorough adds 1-3 random byte edits on top of every k-th atom. Non-trivial = every faulted file; distinct by hash of the file.".into()
     }
     fn assumptions(&self) -> Vec<String> {
         vec![
